@@ -145,6 +145,18 @@ MUTANTS = [
     (DF, "    properties = left._properties & right._properties", "    properties = left._properties", ['definitions.conflicting_pairs'], 'breaks'),
     (DF, "    if conflicts:\n        raise ValueError", "    if len(conflicts) > 1:\n        raise ValueError", ['definitions.ensure_compatible'], 'breaks'),
     (DF, "        self.union_update(other)\n        return self", "        self.union_update(other, True)\n        return self", ['definitions.__ior__'], 'breaks'),
+    (LI, "            upper.append(n_extent)\n", "            pass\n", ['lindig.lattice'], 'breaks'),
+    (LI, "                mapping[n_extent][3].append(extent)", "                mapping[n_extent][2].append(extent)", ['lindig.lattice'], 'breaks'),
+    (LI, "                mapping[n_extent][3].append(extent)", "                pass", ['lindig.lattice'], 'breaks'),
+    (LI, "(n_extent, n_intent, [], [extent])", "(n_extent, n_intent, [], [])", ['lindig.lattice'], 'breaks'),
+    (LI, "                push((n_extent.shortlex(), neighbor))", "                push((extent.shortlex(), neighbor))", ['lindig.lattice'], 'breaks'),
+    (LI, "                push((n_extent.shortlex(), neighbor))", "                pass", ['lindig.lattice'], 'breaks'),
+    (LI, "            if n_extent in mapping:", "            if n_extent not in mapping:", ['lindig.lattice'], 'breaks'),
+    (LI, "    heap = [(extent.shortlex(), concept)]", "    heap = [(extent.shortlex(), (extent, intent, [], []))]", ['lindig.lattice'], 'breaks'),
+    (LI, "    extent, intent = Objects.frommembers(infimum).doubleprime()", "    extent, intent = Objects.frommembers(infimum), Objects.frommembers(infimum).prime()", ['lindig.lattice'], 'breaks'),
+    (LI, "        for n_extent, n_intent in neighbors(extent, Objects=Objects):", "        for n_extent, n_intent in neighbors(intent, Objects=Objects):", ['lindig.lattice'], 'breaks'),
+    (LI, "mapping[n_extent] = neighbor = (n_extent, n_intent, [], [extent])\n                push((n_extent.shortlex(), neighbor))",
+         "mapping[n_extent] = (n_extent, n_intent, [], [extent])\n                push((n_extent.shortlex(), (n_extent, n_intent, [], [extent])))", ['lindig.lattice'], 'breaks'),
 ]
 
 
